@@ -57,7 +57,7 @@ VARIABLES now,     \* clock
           s,       \* per call: record, see IdleCall
           att,     \* per call: its attempts [nsAt, res, why, open, sent, closed, endAt, proto]
           ses,     \* per call: the server session of each attempt, see NoSes
-          h,       \* per <<sending host, peer>>: the Sender's peerState [failing, buf] (buf: TRUE = failure)
+          h,       \* per <<sending host, peer>>: the Sender's peerState [failing, buf] (buf: TRUE = failure), failAt: when it began to fail
           hist,    \* per <<host, peer>>: every result handed to addResult, in order [fail, dial]      (history)
           logs,    \* per <<host, peer>>: the log lines of addResult [kind, at = Len(hist) then]            (history)
           up,      \* set of unordered host pairs {a, b} that are linked
@@ -75,7 +75,7 @@ NewAtt == [nsAt |-> now, res |-> "-", why |-> "-", open |-> FALSE, sent |-> FALS
 Pairs == Hosts \X Hosts
 InitWith(cf, links, rl) ==
   /\ now = 0 /\ conf = cf /\ s = [c \in Calls |-> IdleCall] /\ att = [c \in Calls |-> <<>>] /\ ses = [c \in Calls |-> <<>>]
-  /\ h = [k \in Pairs |-> [failing |-> FALSE, buf |-> <<>>]] /\ hist = [k \in Pairs |-> <<>>] /\ logs = [k \in Pairs |-> <<>>]
+  /\ h = [k \in Pairs |-> [failing |-> FALSE, buf |-> <<>>, failAt |-> None]] /\ hist = [k \in Pairs |-> <<>>] /\ logs = [k \in Pairs |-> <<>>]
   /\ up = links /\ conn = {} /\ relay = rl
 
 SenderKinds == {"sr", "async"}       \* methods of Sender: retry + addResult
@@ -135,23 +135,27 @@ NS(c) ==
   /\ ses' = [ses EXCEPT ![c] = Append(@, NoSes)]
   /\ UNCHANGED <<now, conf, h, hist, logs, up, conn, relay>>
 \* ENVIRONMENT: what NewStream returns.  "ok" needs a connection (an existing one, or a new one over a link that both
-\* gaters admit) and a protocol both ends know: the first of the offered ones that the peer registered
+\* gaters admit) and a protocol both ends know.  WHICH of the common protocols runs is libp2p's business: the first offered
+\* one that the peer is KNOWN to support (identify, earlier negotiations), else the first offered one it accepts -- a peer
+\* that registered several protocols under one wildcard name is not known to support any of them before the first stream
 CanConnect(a, b) == Connected(a, b) \/ (Linked(a, b) /\ AdmitBoth(a, b))
-NSRet(c, res, why) ==
+Common(c) == {s[c].protos[i] : i \in 1..Len(s[c].protos)} \cap (IF Srv(s[c].peer).on THEN Srv(s[c].peer).protos ELSE {})
+NSRet(c, res, why, pr) ==
   /\ s[c].pc = "ns"
-  /\ LET f == s[c].from  p == s[c].peer  pr == FirstSupported(s[c].protos, IF Srv(p).on THEN Srv(p).protos ELSE {}) IN
+  /\ LET f == s[c].from  p == s[c].peer IN
      /\ why \in {"ok", "inj", "nolink", "gated", "unsupp", "ctx"}
      /\ (res = "ok") = (why = "ok")
-     /\ why = "ok" => CanConnect(f, p) /\ pr # "-"
+     /\ why = "ok" => CanConnect(f, p) /\ pr \in Common(c)
+     /\ why # "ok" => pr = "-"
      /\ why = "nolink" => ~Connected(f, p) /\ ~Linked(f, p)
      /\ why = "gated" => ~Connected(f, p) /\ ~AdmitBoth(f, p)
-     /\ why = "unsupp" => pr = "-" /\ CanConnect(f, p)
+     /\ why = "unsupp" => Common(c) = {} /\ CanConnect(f, p)
      /\ why = "ctx" => s[c].cx = "canceled"
      /\ res \in {"ok"} \cup ErrClasses
      /\ why \in {"nolink", "gated", "unsupp", "ctx"} => res = "other"
      /\ \/ conn' = (IF CanConnect(f, p) /\ why \in {"ok", "unsupp"} THEN conn \cup {{f, p}} ELSE conn)
         \/ (why = "ctx" /\ CanConnect(f, p) /\ conn' = conn \cup {{f, p}})      \* the dial may have succeeded before the context was looked at
-     /\ att' = [att EXCEPT ![c][A(c)] = [@ EXCEPT !.res = res, !.why = why, !.open = (res = "ok"), !.proto = IF res = "ok" THEN pr ELSE "-",
+     /\ att' = [att EXCEPT ![c][A(c)] = [@ EXCEPT !.res = res, !.why = why, !.open = (res = "ok"), !.proto = pr,
                                                  !.endAt = IF res = "ok" THEN None ELSE now]]
      /\ Upd(c, IF res = "ok" THEN [s[c] EXCEPT !.pc = "open", !.openAt = now] ELSE [s[c] EXCEPT !.pc = "ares", !.ares = res])
   /\ UNCHANGED <<now, conf, ses, h, hist, logs, up, relay>>
@@ -215,7 +219,8 @@ AddOutcome(st, fail, dial) ==
       recovered == /\ ~fail /\ st.failing /\ Len(b) = BufLen /\ b[1]
                    /\ \A i \in (IF Defect = "recover2" THEN 3 ELSE 2)..Len(b) : ~b[i]
       newfail == fail /\ (Len(b) = 1 \/ ~st.failing \/ Defect = "noSuppress")
-  IN [st |-> [failing |-> IF recovered THEN FALSE ELSE IF newfail THEN TRUE ELSE st.failing, buf |-> b],
+  IN [st |-> [failing |-> IF recovered THEN FALSE ELSE IF newfail THEN TRUE ELSE st.failing, buf |-> b,
+              failAt |-> IF newfail /\ ~st.failing THEN now ELSE st.failAt],
       log |-> IF recovered THEN "recovered" ELSE IF newfail /\ (~dial \/ Defect = "warnDial") THEN "sendfail" ELSE "-"]
 AddResult(c) ==
   /\ s[c].pc = "add"
@@ -298,7 +303,7 @@ GateRes(g, fn, id) == fn # "secured" \/ GAdmit(g, id)
 ---------------------------------------------------------------------------------------------------
 (* time *)
 CallQuiet(c) == CASE s[c].pc \in {"idle", "done", "ns"} -> TRUE
-                  [] s[c].pc = "reading" -> now < s[c].dl
+                  [] s[c].pc \in {"dl", "reading"} -> now < s[c].dl          \* a write / read may block, until the deadline
                   [] s[c].pc = "sleep" -> now < s[c].wake
                   [] OTHER -> FALSE
 SesQuiet(c, a) == CASE ses[c][a].pc \in {"none", "inh", "closed"} -> TRUE
@@ -306,7 +311,7 @@ SesQuiet(c, a) == CASE ses[c][a].pc \in {"none", "inh", "closed"} -> TRUE
                     [] OTHER -> FALSE
 Quiet == \A c \in Calls : /\ CallQuiet(c) /\ (s[c].kind = "async" => s[c].retd)
                           /\ \A a \in 1..Len(ses[c]) : SesQuiet(c, a)
-Timers == {s[c].wake : c \in {x \in Calls : s[x].pc = "sleep"}} \cup {s[c].dl : c \in {x \in Calls : s[x].pc = "reading"}}
+Timers == {s[c].wake : c \in {x \in Calls : s[x].pc = "sleep"}} \cup {s[c].dl : c \in {x \in Calls : s[x].pc \in {"dl", "reading"}}}
           \cup {ses[x[1]][x[2]].rdl : x \in {y \in Calls \X (1..2) : y[2] <= Len(ses[y[1]]) /\ ses[y[1]][y[2]].pc = "rd"}}
 NextTimer == IF Timers = {} THEN Inf ELSE Min(Timers)
 Tick(to) == /\ Quiet /\ to > now /\ to <= NextTimer /\ now' = to
@@ -369,16 +374,18 @@ Deadlines == /\ \A c \in Made : s[c].dl # None => s[c].dl = s[c].openAt + s[c].s
    other when it was made -- admitted = the gater is open, or the other end is a cluster peer or what one of the relays'
    MutablePeers holds at that moment *)
 CAdmit(g, id) == g \notin conf.gated \/ id \in conf.cluster \/ \E r \in DOMAIN relay : relay[r] = id
-GaterContract == [][\A pr \in conn' \ conn : \A a, b \in pr : a # b => CAdmit(a, b)]_vars
+GaterStep == \A pr \in conn' \ conn : \A a, b \in pr : a # b => CAdmit(a, b)
+GaterContract == [][GaterStep]_vars
 \* "WithDelimitedProtocol returns an option that adds a length delimited read/writer for the provide protocol" -- "Add to
-\* front", "Protocols ordered by higher priority first": the stream runs the LAST added protocol the peer knows, the base
-\* protocol only when it knows none of the added ones
-ProtoPreference == \A c \in Made : \A a \in 1..Len(att[c]) : att[c][a].open =>
-                      att[c][a].proto = FirstSupported(Reverse(s[c].delims) \o <<s[c].base>>, Srv(P(c)).protos)
+\* front", "Protocols ordered by higher priority first": the protocols are offered last-added first, the base protocol last;
+\* the stream runs one that was offered and that the peer registered
+ProtoPreference == \A c \in Made : /\ s[c].protos = Reverse(s[c].delims) \o <<s[c].base>>
+                                    /\ \A a \in 1..Len(att[c]) : att[c][a].open => att[c][a].proto \in Common(c)
 \* SendAsync: "Clone the context since parent context may be closed soon": the send does not see the caller's context end
 AsyncDetached == \A c \in Made : s[c].kind = "async" => s[c].cx = "live"
 \* one peer's results never touch another peer's state
-PeerIndependence == [][\A k \in Pairs : (h'[k] # h[k] \/ logs'[k] # logs[k]) => Len(hist'[k]) = Len(hist[k]) + 1]_vars
+PeerIndepStep == \A k \in Pairs : (h'[k] # h[k] \/ logs'[k] # logs[k]) => Len(hist'[k]) = Len(hist[k]) + 1
+PeerIndependence == [][PeerIndepStep]_vars
 TypeOK == /\ now \in Nat
           /\ \A c \in Calls : Len(att[c]) = s[c].a /\ Len(ses[c]) = s[c].a
           /\ \A k \in Pairs : Len(h[k].buf) <= BufLen
